@@ -29,6 +29,7 @@ def failureResp (op : Nat) : Option Bytes :=
   else if op == Gen.proto_CmdReadDirEntry then some (neg 8 ++ zeros 3)
   else if op == Gen.proto_CmdReadDirEntryV2 then some (neg 8 ++ zeros 27)
   else if op == Gen.proto_CmdReadDir then some (zeros 8)
+  else if op == Gen.proto_CmdReadFile then some (neg 4)
   else none
 
 def records (b : Bytes) : List Bytes :=
@@ -89,7 +90,20 @@ def judgeFrom (shortRead : Bool) (allOps : List Nat) (allBase : List Tok) : Nat 
     else
       match g with
       | .closed _ => if gs.isEmpty then .ok else .bad i "tokens after the connection ended"
-      | _ => .ok                 -- after one legitimate deviation the session state has diverged
+      | _ =>
+        -- after one legitimate deviation the session state has diverged; one thing is still known:
+        -- an OPEN_FILE answered with the failure code has opened nothing, so a read that follows
+        -- it directly must not deliver data
+        if op == Gen.proto_CmdOpenFile && failureResp op == some g.bytes then
+          match ops, gs with
+          | op2 :: _, g2 :: _ =>
+            if op2 == Gen.proto_CmdReadFile then
+              (if g2 == .resp (neg 4) then .ok else .bad (i + 1) "data served from a file whose OPEN_FILE was answered with the failure code")
+            else if op2 == Gen.proto_CmdReadFileCritical || op2 == Gen.proto_CmdReadCD2048Critical then
+              (if g2.bytes.isEmpty then .ok else .bad (i + 1) "data served from a file whose OPEN_FILE was answered with the failure code")
+            else .ok
+          | _, _ => .ok
+        else .ok
   | i, _, _, _ => .bad i "more responses than requests"
 
 /-- the whole judgement: handles released, server alive, responses acceptable, session complete -/
